@@ -1,7 +1,7 @@
 (* C01 — Two endpoints built on the library interoperate, even across transport loss.
    Statements only.  Nothing else may be added to this file. *)
 From MQ Require Import Base.Prelude Alloc.Alloc Alloc.AllocProofs Framing.Framing Framing.FramingProofs Conn.Types Conn.ConnRecord Conn.Step
-                       Corr.ConnTrace Conn.Scope Conn.Session Conn.IdsQuota Conn.Own Conn.OwnFrame Conn.OwnStep Conn.Run Conn.PairQos Conn.PairQos0 Conn.PairQos5 Conn.PairSeq Conn.PairSeq5 Conn.PairConc Conn.PairBi Conn.PairConc5 Conn.PairBi5 Conn.PairHandshake5 Conn.PairHandshake311 Conn.PairManual Conn.PairManual5 Conn.PairManualSeq Conn.PairManualSeq5 Conn.SessInv Conn.PairLoss Conn.PairLossAcc Conn.PairLossS.
+                       Corr.ConnTrace Conn.Scope Conn.Session Conn.IdsQuota Conn.Own Conn.OwnFrame Conn.OwnStep Conn.Run Conn.PairQos Conn.PairQos0 Conn.PairQos5 Conn.PairSeq Conn.PairSeq5 Conn.PairConc Conn.PairBi Conn.PairConc5 Conn.PairBi5 Conn.PairHandshake5 Conn.PairHandshake311 Conn.PairManual Conn.PairManual5 Conn.PairManualSeq Conn.PairManualSeq5 Conn.SessInv Conn.PairLoss Conn.PairLossAcc Conn.PairLossS Conn.PairHandshakeP.
 
 (* what the pair property rests on, each proved for ALL states of one endpoint:
    (i) delivery in any fragmentation is the same byte stream (C09) *)
@@ -539,6 +539,48 @@ Print Assumptions C01_recv_call_is_deliver.
    either side, termination, exactly-once / at-least-once / at-most-once delivery with the original topic and payload,
    quiescence (all identifiers released, stores empty, full vacancy); both objects are tied to the model by the
    full-digest correspondence chk_duo. *)
+
+
+(* THE PERSISTENT HANDSHAKE ESTABLISHES THE LOSSY INVARIANT (Conn/PairHandshakeP.v; v3.1.1, Clean Session = 0, any keep-alive,
+   Session Present either way): from two disconnected endpoints with nothing stored, awaited or handled *)
+Theorem C01_persistent_handshake_establishes_lossy_invariant : forall gs gr A0 B0 cn ca,
+  OWN gs A0 -> OWN gr B0 -> c_version A0 = V311 -> c_version B0 = V311 -> c_status A0 = Disconnected -> c_status B0 = Disconnected ->
+  EMPTY A0 -> EMPTY B0 -> c_auto_pub A0 = true -> c_auto_pub B0 = true -> role_client_ok gs = true -> role_server_ok gr = true ->
+  k_type cn = T_CONNECT -> k_ver cn = V311 -> k_flag cn = false ->
+  k_type ca = T_CONNACK -> k_ver ca = V311 -> k_rc ca = 0 ->
+  exists A1 e1 B1 e2 B2 e3 A2 e4,
+    step gs A0 (OSend cn) = Ok (A1, e1, []) /\ sends e1 = [cn] /\ errors e1 = [] /\
+    deliver gr B0 cn = Ok (B1, e2) /\ notifies e2 = [cn] /\ errors e2 = [] /\ sends e2 = [] /\
+    step gr B1 (OSend ca) = Ok (B2, e3, []) /\ sends e3 = [ca] /\ errors e3 = [] /\
+    deliver gs A1 ca = Ok (A2, e4) /\ notifies e4 = [ca] /\ errors e4 = [] /\ sends e4 = [] /\
+    invL gs gr (mkSys A2 B2 [] [] [] []) /\ accB (mkSys A2 B2 [] [] [] []) /\ accC (mkSys A2 B2 [] [] [] []).
+Proof. exact persistent_handshake_establishes_lossy_invariant. Qed.
+Print Assumptions C01_persistent_handshake_establishes_lossy_invariant.
+
+(* END TO END ACROSS TRANSPORT LOSS: two freshly constructed endpoints, the persistent handshake, then ANY schedule of
+   publications, deliveries and transport losses, each loss followed by a resumption: every call succeeds, the links
+   drain, nothing stays stored, every QoS 2 message published is notified exactly once (up to DUP) and in order, every
+   QoS 1 message at least once *)
+Theorem C01_fresh_endpoints_interoperate_across_loss : forall gs gr cn ca l,
+  1 <= g_idmax gs -> 1 <= g_idmax gr -> role_client_ok gs = true -> role_server_ok gr = true -> 2 + g_idw gs <= MQTT_PACKET_SIZE_NO_LIMIT ->
+  k_type cn = T_CONNECT -> k_ver cn = V311 -> k_flag cn = false ->
+  k_type ca = T_CONNACK -> k_ver ca = V311 -> k_rc ca = 0 ->
+  Forall good_actL l ->
+  let A0 := set_auto_pub (conn_new gs V311) true in
+  let B0 := set_auto_pub (conn_new gr V311) true in
+  exists A1 e1 B1 e2 B2 e3 A2 e4 s1 s2,
+    step gs A0 (OSend cn) = Ok (A1, e1, []) /\ sends e1 = [cn] /\
+    deliver gr B0 cn = Ok (B1, e2) /\ notifies e2 = [cn] /\
+    step gr B1 (OSend ca) = Ok (B2, e3, []) /\ sends e3 = [ca] /\
+    deliver gs A1 ca = Ok (A2, e4) /\ notifies e4 = [ca] /\
+    errors e1 = [] /\ errors e2 = [] /\ errors e3 = [] /\ errors e4 = [] /\
+    run_schedL gs gr (mkSys A2 B2 [] [] [] []) l = Some s1 /\
+    run_schedL gs gr s1 (drainL (measure s1)) = Some s2 /\
+    qsr s2 = [] /\ qrs s2 = [] /\ c_store (cs s2) = [] /\
+    map undup (filter q2 (delivered s2)) = map undup (filter q2 (published s1)) /\
+    (forall p, In p (published s1) -> k_type p = T_PUBLISH -> k_qos p = 1 -> In (undup p) (map undup (delivered s2))).
+Proof. exact fresh_endpoints_interoperate_across_loss. Qed.
+Print Assumptions C01_fresh_endpoints_interoperate_across_loss.
 
 (* the premises of the pair theorems are met by two endpoints after an ordinary handshake *)
 Example C01_pair_nonvacuous :
